@@ -324,6 +324,32 @@ impl Options {
         description_options.extend(Options::new(usage_options))
     }
 
+    /// Verification hook: the option descriptors as (kind, short, long, default).
+    #[cfg(rash_verif)]
+    pub fn verif_dump(&self) -> Vec<(String, Option<String>, Option<String>, Option<String>)> {
+        self.hash_set
+            .iter()
+            .map(|o| match o {
+                OptionArg::Simple { short, long } => {
+                    ("simple".to_owned(), short.clone(), long.clone(), None)
+                }
+                OptionArg::Repeatable { short, long } => {
+                    ("repeatable".to_owned(), short.clone(), long.clone(), None)
+                }
+                OptionArg::WithParam {
+                    short,
+                    long,
+                    default_value,
+                } => (
+                    "withparam".to_owned(),
+                    short.clone(),
+                    long.clone(),
+                    default_value.clone(),
+                ),
+            })
+            .collect()
+    }
+
     pub fn parse(&self, arg: &str, def: &str) -> Option<Value> {
         let (arg_key, arg_value_option) = match arg.split_once('=') {
             Some((k, v)) => (k, Some(v)),
